@@ -287,7 +287,7 @@ func (ssf *serverSessionFormat) writePacketRTP(pkt *rtp.Packet, ntp time.Time) e
 
 	maxPlainPacketSize := ssf.ssm.ss.s.MaxPacketSize
 	if ssf.ssm.srtpOutCtx != nil {
-		maxPlainPacketSize -= srtpOverhead
+		maxPlainPacketSize -= ssf.ssm.srtpOutCtx.rtpOverhead()
 	}
 
 	plain := make([]byte, maxPlainPacketSize)
